@@ -54,6 +54,24 @@ class _Only:
         self._ctx.saw(fn)
 
 
+class _OnlyKeys(_Only):
+    """Like _Only, restricted to obligations whose key matches a regular expression."""
+
+    def __init__(self, ctx, src, dst, key_rx):
+        _Only.__init__(self, ctx, src, dst)
+        self._rx = re.compile(key_rx)
+
+    def ob(self, rule, key, ok, where="", detail="", fn=None):
+        if rule == self._src and self._rx.search(key):
+            return self._ctx.ob(self._dst, key, ok, where, detail, fn)
+        return ok
+
+    def anchor(self, rule, what, found, where=""):
+        if rule == self._src and self._rx.search(what):
+            return self._ctx.anchor(self._dst, what, found, where)
+        return bool(found)
+
+
 def run(ctx):
     prog = ctx.prog
     for r, t in [("R1", "one digest for sign / verify / recover: content_addr of the given contract"), ("R2", "malformed signatures are errors: no reachable unreviewed panic site"),
